@@ -13,4 +13,4 @@ Separate Extraction
   RecoverTable.table Panic.find_cell Panic.cells Panic.cell_name Panic.verdict_of Panic.verdict_name
   Panic.recovering_frame Panic.stack_names Panic.applicable Panic.escaped Panic.contained
   Panic.table_accounted Panic.goroutines_present Panic.unresolved_entries
-  Panic.format_shielded Panic.during_teardown_ok Panic.udp_max_body.
+  Panic.format_shielded Panic.format_total Panic.during_teardown_ok Panic.udp_max_body.
